@@ -386,7 +386,9 @@ func c16R4(c *Ctx, rule string) {
 		_, userBase := loadedField(nul.Call.Value) // user.valve → base = user
 		okAll := true
 		n := 0
-		allInstrs(f, func(i ssa.Instruction) {
+		// the filing may live in a helper split off from this function (enqueueUsageLocked(arrUID, up, down)):
+		// search the unit and map the helper's key parameter back to the argument passed
+		p.unitInstrs(f, func(i ssa.Instruction) {
 			var key ssa.Value
 			switch x := i.(type) {
 			case *ssa.Lookup:
@@ -402,8 +404,8 @@ func c16R4(c *Ctx, rule string) {
 				return
 			}
 			n++
-			fv, base := loadedField(key)
-			if fv == nil || fv.Name() != "arrUID" || base != userBase {
+			fv, base := loadedField(p.canonIn(f, stripConv(key)))
+			if !isField(fv, "internal/server", "ActiveUser", "arrUID") || base != userBase {
 				okAll = false
 			}
 		})
